@@ -169,7 +169,9 @@ impl Game {
 
         match maybe_chess_move {
             Some(result) => Ok(result.clone()),
-            None => return Err(GameError::InvalidMove),
+            // The book does not apply to this position (e.g. a game started
+            // from a custom board), so fall back to the search.
+            None => self.select_alpha_beta_best_move(),
         }
     }
 
